@@ -1077,7 +1077,7 @@ def getitem(a, key):
             if k.elems is None:
                 raise Unsupported("indexing with an untracked index array")
             if not k.is_concrete():
-                if k.ndim == 0 and A.elems is not None:
+                if A.elems is not None:
                     return _select(A, key, ax, k)
                 raise Unsupported("indexing with a data-dependent index array")
             adv.append((len(groups), ax, k))
@@ -1149,22 +1149,38 @@ def getitem(a, key):
 
 
 def _select(A, key, ax, k):
-    """x[..., i, ...] with a symbolic scalar index i: each result element is an opaque selection
-    among the candidates along that axis."""
+    """x[..., idx, ...] with a *symbolic* integer index (scalar or array, e.g. an opaque
+    permutation): each result element is an uninterpreted selection, by the index symbol, among the
+    candidates along that axis.  Exact as provenance: equal index symbols select equal elements."""
+    pos = [j for j, kk in enumerate(key) if kk is k][0]
+    for j, kk in enumerate(key):
+        if j != pos and isinstance(kk, Arr) and kk.ndim > 0:
+            raise Unsupported("symbolic index combined with another advanced index")
     cands = []
     for i in range(A.shape[ax]):
         key2 = list(key)
-        pos = [j for j, kk in enumerate(key2) if kk is k][0]
         key2[pos] = i
         cands.append(getitem(A, tuple(key2)))
-    idx = as_poly(k.elems[0])
-    shape = cands[0].shape
+    S = cands[0].shape
+    p = sum(1 for kk in key[:pos] if kk is None or isinstance(kk, slice))
+    K = k.shape
     if any(c.elems is None for c in cands):
-        return Arr(shape, None, A.dtype)
+        return Arr(S[:p] + K + S[p:], None, A.dtype)
+    nS = prod(S)
+    ckeys = [tuple(as_poly(c.elems[j]).key() for c in cands) for j in range(nS)]
     el = []
-    for j in range(prod(shape)):
-        el.append(Poly.fn("select", idx, tuple(as_poly(c.elems[j]).key() for c in cands)))
-    return Arr(shape, el, A.dtype)
+    for e in k.elems:
+        if is_concrete(e):
+            i = _as_int(to_num(e))
+            el.extend(cands[i].elems)
+        else:
+            idx = as_poly(e)
+            for j in range(nS):
+                el.append(Poly.fn("select", idx, ckeys[j]))
+    out = Arr(K + S, el, A.dtype)
+    if K and p:
+        out = moveaxis(out, tuple(range(len(K))), tuple(range(p, p + len(K))))
+    return out
 
 
 def setitem(a, key, val):
